@@ -123,6 +123,25 @@ func c12Scenarios(tier string) []*Scenario {
 				}
 				sc3.Check = func(w *World) []Violation { return c12Check(w, deps) }
 				scs = append(scs, sc3)
+				// variant: the root dependency is disabled in the configuration (its dependents run without waiting
+				// for it) and is started by hand later: it is still the last to be stopped
+				if len(sh.deps[sh.names[0]]) == 0 {
+					root := sh.names[0]
+					nodes6 := append([]GNode{}, nodes...)
+					nodes6[0].Disabled = true
+					yaml6, procs6, _ := buildGraph(nodes6, nil)
+					for _, nm := range sh.names[1:] {
+						procs6[nm] = &ProcScript{DieAfter: 2 * time.Second}
+					}
+					sc6 := &Scenario{
+						ID:   fmt.Sprintf("c12-%s-dependency-started-later[%s]", sh.id, root),
+						YAML: yaml6, Procs: procs6, K: 1, Ordered: true, TickBudget: 3,
+						API:      [][]APICall{{{Op: "start", Name: root, When: othersUp}, {Op: "shutdown", When: allUp}}},
+						MapSites: sc.MapSites,
+					}
+					sc6.Check = func(w *World) []Violation { return c12Check(w, deps) }
+					scs = append(scs, sc6)
+				}
 				// variant: the leaf dependent fails once and is in its restart back-off when somebody asks to start it;
 				// the shutdown begins after the back-off, when its command (its commands, if the start was served)
 				// is up again
